@@ -340,8 +340,39 @@ func (hs *serverHandshakeState) checkForResumption() bool {
 	if sessionHasClientCerts && c.config.ClientAuth == NoClientCert {
 		return false
 	}
+	// Client certificates that no longer verify under the current
+	// configuration: do not resume, perform a full handshake instead.
+	if sessionHasClientCerts && !c.sessionCertsAcceptable(hs.sessionState.certificates) {
+		return false
+	}
 
 	return true
+}
+
+// sessionCertsAcceptable reports whether the client certificates stored in a
+// session ticket still satisfy the current client authentication settings.
+func (c *Conn) sessionCertsAcceptable(certificates [][]byte) bool {
+	if c.config.ClientAuth < VerifyClientCertIfGiven || len(certificates) == 0 {
+		return true
+	}
+	certs := make([]*x509.Certificate, len(certificates))
+	for i, asn1Data := range certificates {
+		var err error
+		if certs[i], err = x509.ParseCertificate(asn1Data); err != nil {
+			return false
+		}
+	}
+	opts := x509.VerifyOptions{
+		Roots:         c.config.ClientCAs,
+		CurrentTime:   c.config.time(),
+		Intermediates: x509.NewCertPool(),
+		KeyUsages:     []x509.ExtKeyUsage{x509.ExtKeyUsageClientAuth},
+	}
+	for _, cert := range certs[1:] {
+		opts.Intermediates.AddCert(cert)
+	}
+	_, err := certs[0].Verify(opts)
+	return err == nil
 }
 
 func (hs *serverHandshakeState) doResumeHandshake() error {
